@@ -2136,8 +2136,8 @@ class MapColumnsNode(ViewRepresentation):
     def _equiv_nodes(self, other):
         if not isinstance(other, MapColumnsNode):
             return False
-        if not (self.column_remapping == other.column_remapping):
-            return False
+        if list(self.column_remapping.items()) != list(other.column_remapping.items()):
+            return False  # the order of the mapping is the order of the SQL terms
         if not (self.column_deletions == other.column_deletions):
             return False
         return True
@@ -2254,8 +2254,8 @@ class RenameColumnsNode(ViewRepresentation):
     def _equiv_nodes(self, other):
         if not isinstance(other, RenameColumnsNode):
             return False
-        if not self.column_remapping == other.column_remapping:
-            return False
+        if list(self.column_remapping.items()) != list(other.column_remapping.items()):
+            return False  # the order of the mapping is the order of the SQL terms
         return True
 
     def columns_used_from_sources(self, using: Optional[set] = None) -> List:
